@@ -27,8 +27,8 @@ Record query := {
 Definition sdefs := list (uid * expr).
 Definition slabels := list (uid * string).
 
-(* FROM: a database table, or the rows of a compound (UNION) that was compiled before *)
-Inductive from_ := FTable (t : string) | FRows (f : db -> list (list value)).
+(* FROM: a database table, or the rows of a compound (UNION) / a join of operands compiled before *)
+Inductive from_ := FTable (t : string) | FRows (f : db -> list row).
 
 Record compiled := {
   c_from : from_; c_cols : list uid; c_q : query;
@@ -88,7 +88,7 @@ Definition all_true (ds : sdefs) (ps : list expr) (u : unit_) : bool :=
   forallb (fun p => value_eqb (ev ds u p) (VBool true)) ps.
 
 Definition base_rows (d : db) (c : compiled) : list row :=
-  map (zip_row (c_cols c)) (match c_from c with FTable t => db_get d t | FRows f => f d end).
+  match c_from c with FTable t => map (zip_row (c_cols c)) (db_get d t) | FRows f => f d end.
 
 Definition mk1 (r : row) : unit_ := ([], (O, r)).
 Definition mkg (kg : list value * list row) : unit_ :=
@@ -132,6 +132,9 @@ Definition sem_query (d : db) (c : compiled) : frame :=
      f_rows := map (fun u => map (evd ds u) (q_select (c_q c))) (final_units d c) |}.
 
 (* ---------- compile_ast ---------- *)
+Definition on_holds (ds : sdefs) (on : expr) (b : row) : bool :=
+  value_eqb (eval [] (O, b) (subst ds on)) (VBool true).
+
 (* UNION: both operands are compiled to complete SELECTs; the right select list is put into the order of
    the left column names (looked up by name among the right operand's visible columns); the compound
    becomes the FROM of a fresh query that selects the left operand's columns *)
@@ -244,7 +247,7 @@ Fixpoint compile (a : ast) : option compiled :=
               let cr' := with_q cr (set_select (c_q cr) rsel) in
               Some {| c_from := FRows (fun d =>
                                   let all := f_rows (sem_query d cl) ++ f_rows (sem_query d cr') in
-                                  if distinct then dedup_vals [] all else all);
+                                  map (zip_row lsel) (if distinct then dedup_vals [] all else all));
                       c_cols := lsel; c_q := q0 lsel;
                       c_labels := map (fun u => (u, label (c_labels cl) u)) lsel;
                       c_defs := map (fun u => (u, ECol u)) lsel;
@@ -253,7 +256,29 @@ Fixpoint compile (a : ast) : option compiled :=
           end
       | _, _ => None
       end
-  | _ => None                       (* alias with a uid map, subquery marker, join: not in this model *)
+  | Join l r on JInner =>
+      (* table.join(right_table, onclause): the ON clause is compiled with the definitions of both operands
+         inlined; the WHERE predicates of the right operand are appended to the left ones; everything else
+         of the right query (it has no grouping; order / limit need a subquery) is dropped *)
+      match compile l, compile r with
+      | Some cl, Some cr =>
+          let ds := c_defs cr ++ c_defs cl in                (* sqa_expr.update(right_sqa_expr) *)
+          let q := c_q cl in
+          Some {| c_from := FRows (fun d =>
+                              flat_map (fun bl => map (fun br => (bl ++ br)%list)
+                                                      (filter (fun br => on_holds ds on (bl ++ br)%list) (base_rows d cr)))
+                                       (base_rows d cl));
+                  c_cols := c_cols cl ++ c_cols cr;
+                  c_q := {| q_select := q_select q ++ q_select (c_q cr); q_part := q_part q; q_group := q_group q;
+                            q_where := q_where q ++ q_where (c_q cr); q_having := q_having q;
+                            q_order := q_order q; q_limit := q_limit q; q_offset := q_offset q;
+                            q_summ := q_summ q |};
+                  c_labels := c_labels cr ++ c_labels cl;
+                  c_defs := ds;
+                  c_scope := c_scope cl ++ c_scope cr |}
+      | _, _ => None
+      end
+  | _ => None                       (* alias with a uid map, subquery marker, outer joins: not in this model *)
   end.
 
 
@@ -328,6 +353,18 @@ Fixpoint win_ok (ds : sdefs) (e : expr) : bool :=
       end
   end.
 
+(* every uid a pipeline mentions as a column identity (the keys of its reference rows are among them) *)
+Fixpoint ast_uids (a : ast) : list uid :=
+  match a with
+  | Source _ cols => map snd cols
+  | Select c us | GroupBy c us _ => ast_uids c ++ us
+  | Rename c _ | Filter c _ | Arrange c _ | SliceHead c _ _ | Ungroup c | SubqueryMarker c | Alias c None => ast_uids c
+  | Mutate c defs | Summarize c defs => ast_uids c ++ def_uids defs
+  | Alias c (Some m) => ast_uids c ++ map snd m
+  | Join l r _ _ | Union l r _ => ast_uids l ++ ast_uids r
+  end.
+Definition disjointb (a b : list uid) : bool := forallb (fun x => negb (mem_u x b)) a.
+
 Definition is_nil {X} (l : list X) : bool := match l with [] => true | _ => false end.
 Definition no_limit (q : query) : bool := match q_limit q with None => true | Some _ => false end.
 
@@ -377,6 +414,23 @@ Fixpoint flat_ok (a : ast) : bool :=
          | None => false
          end
   | SliceHead c n k => flat_ok c && Z.leb 0 n && Z.leb 0 k
+  | Join l r on JInner =>
+      (* both operands: plain SELECT ... FROM ... WHERE (not summarized, ordered, limited or grouped, no
+         window column), an element-wise condition, and the two operands share no column identity *)
+      flat_ok l && flat_ok r && elem on
+      && match compile l, compile r with
+         | Some cl, Some cr =>
+             let plain := fun c : compiled =>
+                 negb (q_summ (c_q c)) && no_limit (c_q c) && is_nil (q_order (c_q c)) && is_nil (q_part (c_q c))
+                 && ds_elem_b (c_defs c) in
+             plain cl && plain cr
+             && scoped (c_scope cl ++ c_scope cr) on
+             && disjointb (c_scope cl) (ast_uids r) && disjointb (c_scope cr) (ast_uids l)
+             && disjointb (c_cols cl) (c_cols cr)
+             && disjointb (map fst (c_defs cl)) (map fst (c_defs cr))
+             && disjointb (q_select (c_q cl)) (map fst (c_labels cr))
+         | _, _ => false
+         end
   | Union l r _ =>                              (* compile = Some: every left column name exists on the right *)
       flat_ok l && flat_ok r && match compile l with Some cl => nodup_u (q_select (c_q cl)) | None => false end
   | _ => false
